@@ -472,9 +472,11 @@ func (gen *Generator) GenerateCond(args []Sexp) error {
 }
 
 func (gen *Generator) GenerateQuote(args []Sexp) error {
-	for _, expr := range args {
-		gen.AddInstruction(PushInstr{expr})
+	// exactly one value may be left on the stack
+	if len(args) != 1 {
+		return fmt.Errorf("quote takes exactly one argument, got %d", len(args))
 	}
+	gen.AddInstruction(PushInstr{args[0]})
 	return nil
 }
 
